@@ -2033,21 +2033,21 @@ class MatrixBase:
 
     def _mat_mul(self, other: 'MatrixBase') -> None:
         """Rotate myself by the other matrix."""
-        # We don't use each row after assigning to the set, so we can re-assign.
-        # 3-tuple unpacking is optimised.
-        self._aa, self._ab, self._ac = (
+        # Compute all nine values before storing any of them: other may be self (mat @= mat),
+        # and then a row stored early would be read again as part of "other".
+        (
+            self._aa, self._ab, self._ac,
+            self._ba, self._bb, self._bc,
+            self._ca, self._cb, self._cc,
+        ) = (
             self._aa * other._aa + self._ab * other._ba + self._ac * other._ca,
             self._aa * other._ab + self._ab * other._bb + self._ac * other._cb,
             self._aa * other._ac + self._ab * other._bc + self._ac * other._cc,
-        )
 
-        self._ba, self._bb, self._bc = (
             self._ba * other._aa + self._bb * other._ba + self._bc * other._ca,
             self._ba * other._ab + self._bb * other._bb + self._bc * other._cb,
             self._ba * other._ac + self._bb * other._bc + self._bc * other._cc,
-        )
 
-        self._ca, self._cb, self._cc = (
             self._ca * other._aa + self._cb * other._ba + self._cc * other._ca,
             self._ca * other._ab + self._cb * other._bb + self._cc * other._cb,
             self._ca * other._ac + self._cb * other._bc + self._cc * other._cc,
